@@ -1,0 +1,30 @@
+//go:build verif
+
+package versioncore
+
+// Machine-checked contracts (govc, see /verif/DESIGN.md). Comment-only file.
+
+// ---- C24 / C31: the version gates of object validation. From version 2.18 on (the version
+// that fixed the bug which let objects be created with a foreign owner) the object's owner
+// must match its authentication data; targets of TOMBSTONE/LOCK live in the header for
+// versions above 2.17. Major()/Minor() are the version's two numbers (ghost answers).
+//@ fileprops C24 C31
+//@ ghost pred verMajor() uint32
+//@ ghost pred verMinor() uint32
+//@ ghost pred verValid() bool
+//@ callrule c24_version_numbers_major in OwnerSignatureMatchRequired, SysObjTargetShouldBeInHeader
+//@   callee (*version.Version).Major, (version.Version).Major
+//@   pureeffect
+//@   defines result == verMajor()
+//@ callrule c24_version_numbers_minor in OwnerSignatureMatchRequired, SysObjTargetShouldBeInHeader
+//@   callee (*version.Version).Minor, (version.Version).Minor
+//@   pureeffect
+//@   defines result == verMinor()
+//@ callrule c24_version_valid in OwnerSignatureMatchRequired, SysObjTargetShouldBeInHeader
+//@   callee version.IsValid
+//@   pureeffect
+//@   defines result == verValid()
+//@ func OwnerSignatureMatchRequired
+//@   ensures [required_from_2_18_on_and_for_unknown_versions] result == (v == nil || !verValid() || verMajor() > 2 || (verMajor() == 2 && verMinor() >= 18))
+//@ func SysObjTargetShouldBeInHeader
+//@   ensures [header_targets_above_2_17] result == (v != nil && verValid() && (verMajor() > 2 || (verMajor() == 2 && verMinor() > 17)))
